@@ -8,6 +8,8 @@ threshold; oracle = chemistry table of formal charges evaluated on the charge
 column of the written PQR.
 """
 
+import itertools
+
 import numpy as np
 
 from .. import build, corpus, engine, pipeline
@@ -33,10 +35,13 @@ ASSUMPTIONS = [
     "runs that abort are C12's business and only counted here",
 ]
 BOUND = {
-    "quick": "complete grid, complete layout alphabet for AMBER and PARSE, "
-    "strands up to length 3, closure lattice of 8 distances",
-    "thorough": "quick plus layouts for all six force fields and "
-    "hydrogenated inputs",
+    "quick": "complete grid, complete layout alphabet (18 layouts) for AMBER "
+    "and PARSE, strands up to length 3, closure lattice of 8 distances, "
+    "protein + strand + waters in all 6 file orders x 6 force fields, 33 "
+    "seed-rotated pairs of different end residues x 3 force fields",
+    "thorough": "quick plus layouts for all six force fields, all 33 x 33 "
+    "pairs of end residues x 6 force fields and the grid with hydrogenated "
+    "inputs",
 }
 
 
@@ -245,6 +250,46 @@ def run_case(case):
         text = build.pdb_text(atoms)
         tag = "grid"
         n_ends = 2
+    elif mode == "ends":
+        # different residues at the two chain ends
+        seq = [case["x"], "ALA", case["y"]]
+        atoms = build.build_peptide(seq)
+        info = [{"kind": "aa", "input": nm, "chain": "A", "res_seq": 1 + i,
+                 "icode": "", "position": ("n", "mid", "c")[i]}
+                for i, nm in enumerate(seq)]
+        text = build.pdb_text(atoms)
+        tag = "ends"
+        n_ends = 2
+    elif mode == "complex":
+        # protein chain(s) + nucleic strand + waters in one file
+        atoms, info = [], []
+        order = case["order"]
+        for part in order:
+            if part == "P":
+                pep = build.build_peptide(["LYS", "ASP", "HIS", "GLU"],
+                                          chain="A")
+                atoms += pep
+                info += [{"kind": "aa", "input": nm, "chain": "A",
+                          "res_seq": 1 + i, "icode": "",
+                          "position": ("n", "mid", "mid", "c")[i]}
+                         for i, nm in enumerate(["LYS", "ASP", "HIS", "GLU"])]
+            elif part == "N":
+                st = build.build_strand(case["seq"], chain="N", start=101,
+                                        origin=(0.0, 40.0, 0.0))
+                atoms += st
+                info += [{"kind": "na", "input": n, "chain": "N",
+                          "res_seq": 101 + i, "icode": "", "strand": 0}
+                         for i, n in enumerate(case["seq"])]
+            else:
+                for k in range(2):
+                    atoms.append(build.water((30.0 + 4 * k, -20.0, 5.0),
+                                             201 + k))
+                    info.append({"kind": "wat", "input": "HOH", "chain": "W",
+                                 "res_seq": 201 + k, "icode": "",
+                                 "position": None})
+        text = build.pdb_text(atoms)
+        tag = "complex:" + "".join(order)
+        n_ends = 2
     elif mode == "mixed":
         atoms, info = corpus.build_mixed(case["name"])
         text = build.pdb_text(atoms)
@@ -359,6 +404,33 @@ def enumerate_cases(tier, seed):
                 for seq in ([nt], [nt, other], [other, nt], [other, nt, other]):
                     cases.append({"mode": "strand", "ff": ff, "seq": seq,
                                   "naming": naming})
+    # protein + strand + waters in every file order
+    for ff in corpus.FFS:
+        for order in itertools.permutations("PNW"):
+            for seq in (["DA", "DT", "DG"], ["RG", "RU", "RC"]):
+                cases.append({"mode": "complex", "ff": ff, "seq": seq,
+                              "order": list(order)})
+    # different residues at the two ends
+    names = corpus.INPUT_NAMES
+    if tier == "quick":
+        k = seed % len(names)
+        pairs = [(x, names[(i + k + 1) % len(names)])
+                 for i, x in enumerate(names)]
+        pair_ffs = ["AMBER", "PARSE", "CHARMM"]
+    else:
+        pairs = [(x, y) for x in names for y in names]
+        pair_ffs = corpus.FFS
+    for ff in pair_ffs:
+        for x, y in pairs:
+            cases.append({"mode": "ends", "ff": ff, "x": x, "y": y})
+    if tier != "quick":
+        # hydrogenated inputs
+        for ff in corpus.FFS:
+            for x in corpus.INPUT_NAMES:
+                for pos in corpus.POSITIONS:
+                    cases.append({"mode": "grid", "ff": ff, "opts": [],
+                                  "desc": {"x": x, "pos": pos,
+                                           "hydrogens": True}})
     for ff in ("AMBER", "PARSE"):
         for d in (1.20, 1.30, 1.33, 1.346, 1.354, 1.36, 1.40, 1.60):
             cases.append({"mode": "cyclic", "ff": ff, "d": d,
